@@ -296,6 +296,24 @@ class Proc:
             self.p.stdin.write((line + "\n").encode()); self.p.stdin.flush()
         except (BrokenPipeError, OSError):
             return self._died(), []
+        return self.recv(timeout)
+    def send_many(self, lines):
+        """write several requests at once (the child runs them back to back, with no protocol latency in between);
+        the replies are then collected one by one with recv()"""
+        if self.dead:
+            return
+        import threading
+        data = "".join(l + "\n" for l in lines).encode()
+        def w():
+            try:
+                self.p.stdin.write(data); self.p.stdin.flush()
+            except Exception:
+                pass
+        # written from a thread: a batch larger than the pipe buffer must not block the reader of the replies
+        threading.Thread(target=w, daemon=True).start()
+    def recv(self, timeout=None):
+        if self.dead:
+            return self.dead, []
         side = []
         deadline = time.time() + (timeout or self.TIMEOUT)
         while True:
@@ -379,9 +397,37 @@ def run_script(exe, lines, model_pre=(), tmpdir=None, real_env=None):
     try:
         for l in model_pre:
             model.ask(l)
+        pending = []
         for raw in lines:
             raw = raw.strip()
             if not raw or raw.startswith("#"):
+                continue
+            if raw.startswith("&"):
+                # "&line": pipelined with the following lines up to and including the next line without "&" — the real
+                # process receives the whole batch at once and runs it back to back (plain lockstep ops only)
+                pending.append(" ".join(subst(t, var) for t in raw[1:].split(" ")))
+                continue
+            if pending:
+                batch = pending + [" ".join(subst(t, var) for t in raw.split(" "))]
+                pending = []
+                binds = [b.split(" ", 1)[0][1:] if b.startswith("@") else None for b in batch]
+                batch = [b.split(" ", 1)[1] if b.startswith("@") else b for b in batch]
+                real.send_many(batch)
+                stop = False
+                for bi, req in enumerate(batch):
+                    r_reply, side = real.recv(timeout=OP_TIMEOUT.get(req.split(" ")[0]))
+                    if binds[bi] is not None:
+                        parts = r_reply.split(" ")
+                        var[binds[bi]] = parts[1] if len(parts) > 1 else "-"
+                    for sd in side:
+                        if sd.startswith("#ctab ") or sd.startswith("#lib "):
+                            model.ask(sd[1:])
+                    m_reply, _ = model.ask(req)
+                    res.append({"req": req, "real": r_reply, "model": m_reply, "side": side})
+                    if real.dead:
+                        stop = True; break
+                if stop:
+                    break
                 continue
             bind = None
             toks = raw.split(" ")
@@ -434,7 +480,7 @@ def run_script(exe, lines, model_pre=(), tmpdir=None, real_env=None):
     return res
 
 
-REAL_ONLY = {"sys.info", "codec.sweep32", "crc.cpu", "cz.raw", "cz.direct", "cz.libinfo", "cz.gen", "cz.big", "mt.run", "crc.big", "rv.big4g", "wa.huge", "wa.gen", "crc.mt", "crc.edge"}
+REAL_ONLY = {"sys.info", "codec.sweep32", "crc.cpu", "cz.raw", "cz.direct", "cz.libinfo", "cz.gen", "cz.big", "mt.run", "crc.big", "rv.big4g", "wa.huge", "wa.gen", "crc.mt", "crc.edge", "crc.hist"}
 # requests that legitimately take long (multi-gigabyte probes)
 OP_TIMEOUT = {"rv.big4g": 1500, "wa.huge": 1500, "crc.big": 900, "codec.sweep32": 1500, "mt.run": 600, "cz.big": 600}
 MODEL_ONLY = {"enc.raw", "enc.legal", "enc.file", "ctab", "cz.plan", "f.validate", "tp.enum"}
